@@ -152,8 +152,13 @@ CELER_FUNCTION TrackInitializer ScintillationGenerator::operator()(Generator& rn
 
     // Sample polarization perpendicular to the photon direction
     photon.polarization = [&] {
-        Real3 temp = from_spherical(
-            (cost > 0 ? -1 : 1) * std::sqrt(1 - ipow<2>(cost)), phi);
+        // Polar vector perpendicular to the direction: (|cos|, -+sin) in the
+        // plane of the direction and z (avoid recovering |cos| from the sine,
+        // which loses precision for directions close to the x-y plane)
+        real_type const abscost = std::fabs(cost);
+        Real3 temp = {abscost * std::cos(phi),
+                      abscost * std::sin(phi),
+                      (cost > 0 ? -1 : 1) * std::sqrt(1 - ipow<2>(cost))};
         Real3 perp = {-std::sin(phi), std::cos(phi), 0};
         real_type sinphi, cosphi;
         sincospi(UniformRealDist{}(rng), &sinphi, &cosphi);
